@@ -246,6 +246,17 @@ impl SecondaryStorage {
         column_descs: &[ColumnCatalog],
         ordered_pk_ids: &[ColumnId],
     ) -> StorageResult<()> {
+        let _ddl = self.ddl_lock.lock().await;
+
+        // Check before the record goes to the manifest: the binder's check may be stale.
+        let schema = self
+            .catalog
+            .get_schema_by_id(schema_id)
+            .ok_or_else(|| TracedStorageError::not_found("schema", schema_id))?;
+        if schema.get_table_by_name(table_name).is_some() {
+            return Err(TracedStorageError::duplicated("table", table_name));
+        }
+
         let entry = CreateTableEntry {
             schema_id,
             table_name: table_name.to_string(),
@@ -289,6 +300,8 @@ impl SecondaryStorage {
     }
 
     pub(super) async fn drop_table_inner(&self, table_id: TableRefId) -> StorageResult<()> {
+        let _ddl = self.ddl_lock.lock().await;
+
         // Keep compaction (and deletes) of this table out while its RowSets are dropped,
         // otherwise both would remove the same RowSets.
         let _guard = self.txn_mgr.lock_for_deletion(table_id.table_id).await;
